@@ -197,4 +197,27 @@ def _edges(ctx, col, np):
             r = attempt(ed)
             if r != 'refused':
                 col.violation('C13/edges/non-uniform-accepted/scaled', 'non-uniform edges %s (scale %g) are %s' % (ed, scale, r), {'edges': ed})
+    # edges that are uniform only up to the accepted rounding-sized tolerance (first interval off by 2^-31 of a width): a sample well inside a bin
+    # (5e-8 of a width away from the nearest edge, i.e. two orders of magnitude beyond that tolerance) belongs to the same bin under every reading of the edges,
+    # for every bin index up to 255 - a bin scale derived from one interval instead of the whole range drifts by index * 2^-31 and misplaces them
+    from mc.refs import mia as RM
+    for nb in (8, 256):
+        for sign in (1, -1):
+            ed = np.arange(nb + 1, dtype='float64'); ed[1] += sign * 2.0 ** -31
+            ks = [k for k in (1, 2, nb // 2, nb - 56 if nb > 56 else nb - 2, nb - 1) if 0 < k < nb]
+            xs = []
+            for k in ks: xs += [k + 5e-8, k + 1 - 5e-8]
+            X = np.array(xs, dtype='float64')[:, None]
+            for pat in ([0, 1] * len(ks), [0, 0, 1, 1] * (len(ks) // 2) + [0, 1] * (len(ks) % 2), [0] * len(ks) + [1] * len(ks)):
+                Y = np.array(pat[:len(xs)], dtype='uint8')[:, None]
+                col.evaluations += 1; col.states += 1; col.nontrivial += 1; col.transitions += 2
+                case = {'edges': 'arange(%d) with edge 1 moved by %+d * 2^-31' % (nb + 1, sign), 'samples': xs, 'classes': pat[:len(xs)]}
+                try:
+                    d = scared.MIADistinguisher(bin_edges=ed, partitions=[0, 1]); d.update(X, Y); got = float(np.asarray(d.compute()).reshape(-1)[0])
+                except Exception as e:
+                    col.violation('C13/edges/tolerated-grid-raised', 'edges %s: %s: %s' % (case['edges'], type(e).__name__, e), case); continue
+                ref, de, _ = RM.mi_matrix(X, Y, list(range(nb + 1)), [0, 1])
+                if not abs(got - float(ref[0, 0])) <= 1e-9:
+                    col.violation('C13/edges/tolerated-grid-misbinned', 'edges %s, samples %s (each 5e-8 of a width inside its bin), classes %s: MIA %r, H(B)-H(B|V) over those bins %r'
+                                  % (case['edges'], xs, pat[:len(xs)], got, float(ref[0, 0])), case)
     col.sample({'check': 'bin_edges validation', 'lists': 'all increasing lists over {0..7}, length 3..6', 'example_refused': [0, 1, 3], 'example_accepted': [1, 3, 5, 7]}, limit=1)
